@@ -14,6 +14,7 @@ static pev CV[1024]; static int NCV;          /* continuation alphabet (c09) */
 static struct { arb arb; } M;
 static int mode;                               /* 2, 3, 9, 19 (allocation-ledger monitors on the protocol closure) */
 static struct { uint8_t first_seen; } M19;
+static uint32_t base_blocks; static uint64_t base_bytes;      /* the per-interface record of a fresh responder, measured */
 
 static void ev_name(int ev, char *buf, size_t cap) { pev_name(&EV[ev], buf, cap); }
 static void cv_name(int ev, char *buf, size_t cap) { pev_name(&CV[ev], buf, cap); }
@@ -60,16 +61,16 @@ static void apply19(int ev) {
 static void retention19(const pev *e, const char *env) {
     newblocks = 0; newbytes = 0; vf_each_live(count_new, NULL);
     /* what a handler may keep: the interface record (first frame), one observation node (Probe/Train), the icon (QueryLargeTlv) */
-    uint32_t allow = (M19.first_seen ? 0u : 1u) + ((e->opcode == 0x03 || e->opcode == 0x04) ? 1u : 0u) + ((e->opcode == 0x0B) ? 1u : 0u);
+    uint32_t allow = (M19.first_seen ? 0u : base_blocks) + ((e->opcode == 0x03 || e->opcode == 0x04) ? 1u : 0u) + ((e->opcode == 0x0B) ? 1u : 0u);
     char nm[200]; pev_name(e, nm, 150); if (env) { strcat(nm, " with "); strcat(nm, env); }
     if (newblocks > allow) {
         char sig[96]; snprintf(sig, sizeof sig, "handler-retains-buffer:op=0x%02x%s", e->opcode, env ? ":transmit-refused" : "");
         vf_violation(sig, "%s: %u block(s) (%llu bytes) obtained while handling the frame are still allocated afterwards; at most %u can belong to the bounded retained state", nm, newblocks, (unsigned long long)newbytes, allow);
     }
-    if (e->opcode == 0x08 && e->tos == 0 && vf_live_blocks() > 1)
-        vf_violation("reset-leaves-allocations", "%s: %u blocks (%llu bytes) remain allocated after a topology Reset; only the per-interface record may", nm, vf_live_blocks(), (unsigned long long)vf_live_bytes());
-    if (vf_live_bytes() > 65536 + W.host.icon_size)
-        vf_violation("retained-memory-exceeds-bound", "%llu bytes retained between frames (bound 64 KiB + icon)", (unsigned long long)vf_live_bytes());
+    if (e->opcode == 0x08 && e->tos == 0 && (vf_live_blocks() > base_blocks || vf_live_bytes() > base_bytes))
+        vf_violation("reset-leaves-allocations", "%s: %u blocks (%llu bytes) remain allocated after a topology Reset; a fresh responder's per-interface record is %u block(s), %llu bytes", nm, vf_live_blocks(), (unsigned long long)vf_live_bytes(), base_blocks, (unsigned long long)base_bytes);
+    if (vf_live_bytes() > 262144 + W.host.icon_size)
+        vf_violation("retained-memory-exceeds-bound", "%llu bytes retained between frames (bound used: 256 KiB + icon)", (unsigned long long)vf_live_bytes());
 }
 static void root19(void) { M19.first_seen = 0; }
 
@@ -118,6 +119,7 @@ int main(int argc, char **argv) {
     c3.nev = NCV;
     e1_cfg cfg = { .nev = NEV, .ev_name = ev_name, .apply = apply, .root_setup = root_setup, .model = &M, .model_size = sizeof M,
                    .deadline_s = A.deadline };
+    if (mode == 19) { vf_world_reset(); vf_trace_clear(); drv_linux(&RESET0, 0); base_blocks = vf_live_blocks(); base_bytes = vf_live_bytes(); vf_world_reset(); }
     if (mode == 19) { cfg.apply = apply19; cfg.root_setup = root19; cfg.model = &M19; cfg.model_size = sizeof M19; cfg.prune_on_violation = 1; }
     if (A.replay) {
         A.verbose = 1;
